@@ -28,7 +28,7 @@ from .. import translate as T
 from . import _an
 
 PROP = "C20"
-GEN_REGIONS = ["Attrs", "ResultQueries", "EntryPoints"]
+GEN_REGIONS = ["Attrs", "ResultQueries", "EntryPoints", "GlobalState"]
 THEOREMS = {
     "SpecKitV.Props.AttrsA": ["psd_alias", "asd_sq", "ps_def", "csd_alias", "cs_def", "tf_alias", "cf_def", "cf_db_def", "deg_rad",
                               "cf_rad_def", "Gyx_conj", "Hyx_conj", "none_table_cross", "none_table_auto"],
@@ -53,6 +53,9 @@ THEOREMS = {
         "EPG.gen_result_D_column", "EPG.objectArrayOfList_uniform_shape",
         "EPG.gen_entry_points_forward", "EPG.gen_entry_points_sigs", "EPG.gen_select_backend_eq_model", "EPG.gen_select_backend_table",
         "EPG.gen_check_starts_bounds_iff"],
+    # no state outlives a call in the files this property is anchored in (no module/class-level containers, memoisers, mutable defaults) and the
+    # decorators are exactly the audited ones (region GlobalState, re-scanned from the current source each run)
+    "SpecKitV.Props.GlobalStateGen": ["GlobalStateGen.gen_globalState_analysis"],
 }
 CONTRACTS = ["np.interp(x, xp, fp) for strictly increasing xp is the clamped piecewise-linear interpolant Model.interp (tied by correspondence "
              "on real results: grid points, interior points, both clamps)",
